@@ -56,74 +56,45 @@ Definition layout_float_parts (s : str) : option (str * str) :=
   | [], [] => None
   end.
 
-(* fixed-width pieces of the date / time layouts *)
-Fixpoint take_digits (n : nat) (s : str) : option (str * str) :=                 (* [0-9]{n} *)
-  match n with
-  | O => Some ([], s)
-  | S n' =>
-      match s with
-      | c :: r => if re_digit c then
-                    match take_digits n' r with Some (d, r') => Some (c :: d, r') | None => None end
-                  else None
-      | [] => None
-      end
+(* the date / time layouts are fixed-width: a sequence of character classes, [0-9] or one literal character *)
+Inductive pc := PD | PC (c : N).
+Definition pc_ok (p : pc) (x : N) : bool := match p with PD => re_digit x | PC c => x =? c end.
+Fixpoint matches (p : list pc) (s : str) : bool :=                               (* re.fullmatch of such a sequence *)
+  match p, s with
+  | [], [] => true
+  | q :: p', x :: s' => pc_ok q x && matches p' s'
+  | _, _ => false
   end.
-Definition take_char (c : N) (s : str) : option str :=
-  match s with x :: r => if x =? c then Some r else None | [] => None end.
-
-Definition dec_digits (s : str) : N := fold_left (fun a c => 10 * a + (c - 48)) s 0.   (* int() of ASCII digits *)
-
-(* what strptime found: fields absent from the format keep strptime's defaults 1900-01-01 00:00:00 *)
-Record parts := mkParts { pY : N; pm : N; pd : N; pH : N; pM : N; pS : N }.
-Definition default_parts := mkParts 1900 1 1 0 0 0.
+Definition P_Ym : list pc := [PD; PD; PD; PD; PD; PD].                           (* [0-9]{6} *)
+Definition P_Ymd : list pc := P_Ym ++ [PD; PD].                                  (* [0-9]{8} *)
+Definition P_HMS : list pc := [PD; PD; PC 58; PD; PD; PC 58; PD; PD].            (* _HMS = [0-9]{2}:[0-9]{2}:[0-9]{2} *)
+Definition P_F3 : list pc := [PC 46; PD; PD; PD].                                (* \.[0-9]{3} *)
+Definition P_F6 : list pc := P_F3 ++ [PD; PD; PD].                               (* \.[0-9]{3}([0-9]{3})?  second alternative *)
 
 Inductive dfmt := F_Ym | F_Ymd | F_HMS | F_YmdHMS.         (* "%Y%m"  "%Y%m%d"  "%H:%M:%S"  "%Y%m%d-%H:%M:%S" *)
 Definition has_S (f : dfmt) : bool := match f with F_HMS | F_YmdHMS => true | _ => false end.   (* "%S" in format *)
 
-(* _HMS = [0-9]{2}:[0-9]{2}:[0-9]{2} *)
-Definition take_hms (p : parts) (s : str) : option (parts * str) :=
-  match take_digits 2 s with None => None | Some (h, r1) =>
-  match take_char 58 r1 with None => None | Some r2 =>
-  match take_digits 2 r2 with None => None | Some (m, r3) =>
-  match take_char 58 r3 with None => None | Some r4 =>
-  match take_digits 2 r4 with None => None | Some (sec, r5) =>
-    Some (mkParts (pY p) (pm p) (pd p) (dec_digits h) (dec_digits m) (dec_digits sec), r5)
-  end end end end end.
+(* re.fullmatch(_FIX_LAYOUT[format (+ ".%f" when frac)], value) *)
+Definition layout (f : dfmt) (frac : bool) (s : str) : bool :=
+  let base := match f with
+              | F_Ym => P_Ym | F_Ymd => P_Ymd | F_HMS => P_HMS
+              | F_YmdHMS => P_Ymd ++ [PC 45] ++ P_HMS
+              end in
+  if frac then matches (base ++ P_F3) s || matches (base ++ P_F6) s else matches base s.
 
-(* [0-9]{8} *)
-Definition take_ymd (p : parts) (s : str) : option (parts * str) :=
-  match take_digits 4 s with None => None | Some (y, r1) =>
-  match take_digits 2 r1 with None => None | Some (m, r2) =>
-  match take_digits 2 r2 with None => None | Some (d, r3) =>
-    Some (mkParts (dec_digits y) (dec_digits m) (dec_digits d) (pH p) (pM p) (pS p), r3)
-  end end end.
+Definition dec_digits (s : str) : N := fold_left (fun a c => 10 * a + (c - 48)) s 0.   (* int() of ASCII digits *)
 
-(* [0-9]{6} *)
-Definition take_ym (p : parts) (s : str) : option (parts * str) :=
-  match take_digits 4 s with None => None | Some (y, r1) =>
-  match take_digits 2 r1 with None => None | Some (m, r2) =>
-    Some (mkParts (dec_digits y) (dec_digits m) (pd p) (pH p) (pM p) (pS p), r2)
-  end end.
-
-(* \.[0-9]{3}([0-9]{3})?  then end of string.  (%f itself takes 1-6 digits; the microsecond value is never out of range) *)
-Definition end_frac (r : str) : bool :=
-  match take_char 46 r with None => false | Some r1 =>
-  match take_digits 3 r1 with None => false | Some (_, r2) =>
-    is_nil r2 || match take_digits 3 r2 with Some (_, r3) => is_nil r3 | None => false end
-  end end.
-Definition end_of (frac : bool) (r : str) : bool := if frac then end_frac r else is_nil r.
-
-(* re.fullmatch(_FIX_LAYOUT[format (+ ".%f")], value) together with the field values strptime extracts *)
-Definition layout_parse (f : dfmt) (frac : bool) (s : str) : option parts :=
+(* what strptime extracts from a layout string: fields absent from the format keep the defaults 1900-01-01 00:00:00
+   (the microsecond value of %f is never out of range) *)
+Record parts := mkParts { pY : N; pm : N; pd : N; pH : N; pM : N; pS : N }.
+Definition field_at (i n : nat) (s : str) : N := dec_digits (firstn n (skipn i s)).
+Definition fields (f : dfmt) (s : str) : parts :=
   match f with
-  | F_Ym => match take_ym default_parts s with Some (p, r) => if is_nil r then Some p else None | None => None end
-  | F_Ymd => match take_ymd default_parts s with Some (p, r) => if is_nil r then Some p else None | None => None end
-  | F_HMS => match take_hms default_parts s with Some (p, r) => if end_of frac r then Some p else None | None => None end
-  | F_YmdHMS =>
-      match take_ymd default_parts s with None => None | Some (p, r) =>
-      match take_char 45 r with None => None | Some r1 =>
-      match take_hms p r1 with Some (p', r2) => if end_of frac r2 then Some p' else None | None => None end
-      end end
+  | F_Ym => mkParts (field_at 0 4 s) (field_at 4 2 s) 1 0 0 0
+  | F_Ymd => mkParts (field_at 0 4 s) (field_at 4 2 s) (field_at 6 2 s) 0 0 0
+  | F_HMS => mkParts 1900 1 1 (field_at 0 2 s) (field_at 3 2 s) (field_at 6 2 s)
+  | F_YmdHMS => mkParts (field_at 0 4 s) (field_at 4 2 s) (field_at 6 2 s)
+                        (field_at 9 2 s) (field_at 12 2 s) (field_at 15 2 s)
   end.
 
 (* the directive regexes of _strptime on two-digit fields: %m 1[0-2]|0[1-9], %d 3[01]|[12]\d|0[1-9],
@@ -146,10 +117,10 @@ Definition datetime_ok (p : parts) : bool :=
 (* ------------------------------------------------------------------ _validate_value_datetime(value, format) *)
 Definition validate_datetime (f : dfmt) (s : str) : bool :=
   let frac := in_str 46 s && has_S f in        (* "." in value and "%S" in format and "%f" not in format *)
-  match layout_parse f frac s with
-  | None => true                               (* strptime raised, or the layout check refused its result *)
-  | Some p => negb (strptime_regex_ok p && datetime_ok p)
-  end.
+  if layout f frac s then
+    let p := fields f s in negb (strptime_regex_ok p && datetime_ok p)      (* ValueError of strptime / datetime *)
+  else true                                    (* strptime raised, or the layout check refused its result *)
+.
 
 (* ------------------------------------------------------------------ _validate_value_monthyear(value) *)
 Definition WEEKS : list str := [[119; 49]; [119; 50]; [119; 51]; [119; 52]; [119; 53]].   (* w1 .. w5 *)
